@@ -33,7 +33,8 @@ ASSUMPTIONS = [
 ]
 
 ENTRIES = ["sign", "sign_digest", "sign_deterministic", "sign_digest_deterministic", "sign_number"]
-PAYLOAD_TYPES = ["bytes", "bytearray", "memoryview", "memoryview-writable", "array-B", "array-H", "view-cast-I"]
+PAYLOAD_TYPES = ["bytes", "bytearray", "memoryview", "memoryview-writable", "array-B", "array-H", "view-cast-I",
+                 "array-b", "view-cast-b"]
 
 
 def as_type(data, kind):
@@ -47,6 +48,10 @@ def as_type(data, kind):
         return memoryview(bytearray(data))
     if kind == "array-B":
         return array.array("B", data)
+    if kind == "array-b":
+        return array.array("b", [x - 256 if x > 127 else x for x in data])      # signed char items
+    if kind == "view-cast-b":
+        return memoryview(bytearray(data)).cast("b")
     if kind == "array-H" and len(data) % 2 == 0 and data:
         return array.array("H", data)
     if kind == "view-cast-I" and len(data) % 4 == 0 and data:
